@@ -4,7 +4,7 @@
 From Coq Require Import List Arith Bool ZArith QArith Qcanon Ring_theory.
 Import ListNotations.
 Require Import NV.C02.Model NV.C02.Exec NV.C02.ProofsGen NV.C02.ProofsGather NV.C02.ProofsKron NV.C02.ProofsBlk
-               NV.C02.ProofsCplx NV.C02.ProofsSAA NV.C02.ProofsCls NV.C02.ProofsCls2.
+               NV.C02.ProofsCplx NV.C02.ProofsSAA NV.C02.ProofsCls NV.C02.ProofsCls2 NV.C02.ProofsSplit NV.C02.ProofsTr.
 Local Open Scope nat_scope.
 
 Definition cring (T : Type) (t0 t1 : T) (tadd tmul : T -> T -> T) (topp : T -> T) : Prop :=
@@ -229,6 +229,29 @@ Theorem C02_realizer :
     apply T t0 tadd tmul (spec_realizer T t1 n) x (2 * j) = x (2 * j) /\ apply T t0 tadd tmul (spec_realizer T t1 n) x (2 * j + 1) = t0.
 Proof. exact realizer_times. Qed.
 
+(* Python's slice(start, stop, step) on an axis of length n (CPython PySlice_AdjustIndices) selects
+   in-bounds, pairwise distinct indices, for all (also negative / out-of-range) bounds and steps *)
+Theorem C02_python_slice_indices_valid :
+  forall n start stop step, step <> Some 0%Z ->
+    Forall (fun i => i < n) (slice_indices n start stop step) /\ NoDup (slice_indices n start stop step).
+Proof. exact slice_indices_valid. Qed.
+
+Theorem C02_split_key :
+  forall T t0 t1 tadd tmul topp, cring T t0 t1 tadd tmul topp ->
+  forall shs items, Forall2 item_ok shs items ->
+    exists idx, gather_blk T t1 (spec_split_key T t1 tmul shs items) (size shs) idx /\
+                (Forall item_distinct items -> NoDup idx).
+Proof. exact split_key_spec. Qed.
+
+Theorem C02_ravel_unravel :
+  forall sh f, f < prod sh -> Forall2 lt (unravel sh f) sh /\ ravel sh (unravel sh f) = f.
+Proof. intros sh f H. split; [exact (unravel_bound sh f H)|exact (ravel_unravel sh f H)]. Qed.
+
+Theorem C02_transpose_is_permutation :
+  forall T (t1 : T) shs indices, is_perm (length (flat shs)) (np_axes shs indices) ->
+    exists b, spec_transpose T t1 shs indices = bg T t1 b /\ iperm b.
+Proof. exact transpose_spec. Qed.
+
 (* ---------------- non-vacuity ---------------- *)
 Example C02_Qc_is_a_cring : cring Qc Q0 Q1 Qcplus Qcmult Qcopp.
 Proof. exact Qcrt. Qed.
@@ -239,6 +262,9 @@ Proof. exact Zth. Qed.
 Example C02_slice_hyp_satisfiable :
   Forall2 (fun n len => len <= n) (flat [[4; 3]; [5]]) (flat (tgt_slice [[4; 3]; [5]] [Some [2; 3]; None])).
 Proof. repeat constructor. Qed.
+
+Example C02_transpose_hyp_satisfiable : is_perm (length (flat [[2; 3]; [4]; [5]])) (np_axes [[2; 3]; [4]; [5]] [2; 0; 1]).
+Proof. vm_compute. repeat split; repeat constructor; cbn; intuition discriminate. Qed.
 
 Example C02_fftshift_example :
   bmat Qc (X_fftshift [[4]] [true] false) = [(0, 2, Q1); (1, 3, Q1); (2, 0, Q1); (3, 1, Q1)].
